@@ -4,7 +4,7 @@ import nodecheck
 PROFILE = dict(outbound=0.9)
 W = nodecheck.weights(tick=10, dpr=4, close=3, conndone=8, cea=8, readerr=2)
 N_QUICK, N_THOROUGH, LENGTH = 60, 1500, 22
-THEMES = (("disconnect", None, 0, None, 0), ("disconnect_deep", 0, 0, 4000, 0), ("reconnect_after_dpr", 120, 0, None, 0), ("shutdown", 160, 0, None, 0), ("handshake_out", 2, 30, 3, 300))
+THEMES = (("disconnect", None, 0, None, 0), ("disconnect_deep", 0, 0, 4000, 0), ("reconnect_after_dpr", 120, 0, None, 0), ("shutdown", 160, 0, None, 0), ("reused_e2e", None, 0, None, 0), ("handshake_out", 2, 30, 3, 300))
 FILES = ["Props/C12.v"]
 
 
@@ -41,12 +41,48 @@ def write_error_redial(run):
             r.shutdown()
 
 
+def two_lost_at_once(run):
+    """Two persistent peers whose connections break in the same instant (each reader meets bytes that cannot be a frame
+    and closes its connection): both are cleaned up and both are dialled again after reconnect_wait."""
+    import nodesim as NS
+    cfg = NS.default_cfg()
+    cfg["peers"] = [dict(name=n_, realm="example.net", addr=True, persistent=True, always=False, cea=None, cer=None,
+                         dwa=None, idle=None, rwait=2, apps=[0], default=False) for n_ in ("a.example.net", "b.example.net")]
+    e2e0 = ((NS.T0 << 20) | cfg["e2e_rand"]) & 0xffffffff
+    r = NS.Run(cfg, seed=6)
+    try:
+        r.apply(dict(ev="start", dials=[(500, "DialOk"), (600, "DialOk")]))
+        for k, n_ in enumerate(("a.example.net", "b.example.net")):
+            # the CER of connection k carries hop-by-hop 501 / 601 and the node's first / second end-to-end id
+            r.apply(dict(ev="recv", cid=k, dials=[], frames=[NS.build_message(dict(kind="cea", host=n_, result=2001, hbh=501 + 100 * k, e2e=e2e0 + 1 + k))]))
+        ready = [p.connection is not None and p.connection.state == r.sim.peer_mod.PEER_READY for p in r.node.peers.values()]
+        for k in (0, 1):
+            r.remotes[k].feed(bytes(40))
+        r.sim.run()
+        r.sim.advance(1)
+        state = {n_: {"connection": p.connection is not None, "last_disconnect_set": bool(p.last_disconnect)} for n_, p in r.node.peers.items()}
+        n_before = len(r.remotes)
+        r.apply(dict(ev="tick", dt=5, dials=[(700, "DialOk"), (800, "DialOk")] * 4))
+        redialled = len(r.remotes) - n_before
+        run.count(1, [("two-lost-at-once",)])
+        case = {"scenario": "two persistent peers lose their connections in the same instant, reconnect_wait 2"}
+        if not all(ready):
+            run.notes.append("two_lost_at_once: the handshakes did not complete (harness)")
+        elif any(v["connection"] or not v["last_disconnect_set"] for v in state.values()) or redialled < 2 or len(r.node.connections) < 2:
+            run.violation("reconnect-iff", case, {"after_the_loss": state, "dialled_again": redialled},
+                          "both connections removed with their disconnect recorded, both peers dialled again",
+                          what="of two persistent peers lost in the same instant one is not cleaned up / not dialled again")
+    finally:
+        r.shutdown()
+
+
 def check(run):
     orig_obligations = run.obligations
 
     def obligations_then_more(files):
         out = orig_obligations(files)
         write_error_redial(run)
+        two_lost_at_once(run)
         return out
     run.obligations = obligations_then_more
     return nodecheck.run(run, "C12", FILES, PROFILE, W, N_QUICK, N_THOROUGH, LENGTH, themes=THEMES)
